@@ -5,6 +5,9 @@
 #include <functional>
 #include <memory>
 
+#ifdef TEAKRA_VERIF
+struct TeakraVerifAccess; // verification hook: read/seed private state
+#endif
 namespace Teakra {
 struct RegisterState;
 
@@ -28,6 +31,9 @@ struct UserConfig {
 static constexpr std::uint32_t DspMemorySize = 0x80000;
 
 class Teakra {
+#ifdef TEAKRA_VERIF
+    friend struct ::TeakraVerifAccess;
+#endif
 public:
     Teakra(const UserConfig& config);
     ~Teakra();
